@@ -279,7 +279,9 @@ func (b *RefinementBuilder) NumberRangeLowerBound(min Value, inclusive bool) *Re
 		}
 	}
 
-	if min != NegativeInfinity {
+	if min != NegativeInfinity || !inclusive {
+		// (An inclusive lower bound of negative infinity is no bound at all,
+		// but an exclusive one excludes negative infinity itself.)
 		wip.min = min
 		wip.minInc = inclusive
 	}
@@ -330,7 +332,9 @@ func (b *RefinementBuilder) NumberRangeUpperBound(max Value, inclusive bool) *Re
 		}
 	}
 
-	if max != PositiveInfinity {
+	if max != PositiveInfinity || !inclusive {
+		// (An inclusive upper bound of positive infinity is no bound at all,
+		// but an exclusive one excludes positive infinity itself.)
 		wip.max = max
 		wip.maxInc = inclusive
 	}
